@@ -33,6 +33,7 @@ enum FaultKind
     F_REFBREAK = 6, // a = import element index inside the file
     F_BACKEDGE = 7, // file/a identify the import whose chain end is turned into an import of it
     F_UNITSCYCLE = 8, // a = pick
+    F_ALL11 = 9, // every imported file becomes a CellML 1.1 document (a model library in the old format); a = which of them carry benign noise
     F_RESTORE = 10
 };
 
@@ -53,6 +54,7 @@ const char *faultName(int k)
     case F_REFBREAK: return "refbroken";
     case F_BACKEDGE: return "backedge";
     case F_UNITSCYCLE: return "unitscycle";
+    case F_ALL11: return "all-cellml11";
     case F_RESTORE: return "restore";
     }
     return "?";
@@ -112,6 +114,9 @@ std::vector<Fault> singleFaults(const Graph &g)
         out.push_back({F_UNITSCYCLE, long(f), 0, 0});
         out.push_back({F_UNITSCYCLE, long(f), 1, 0});
     }
+    out.push_back({F_ALL11, 0, 0, 0});
+    out.push_back({F_ALL11, 0, 1, 0});
+    out.push_back({F_ALL11, 0, 2, 0});
     for (size_t f = 0; f < g.files.size(); ++f) {
         auto imps = importsOf(g.files[f]);
         for (size_t k = 0; k < imps.size(); ++k) {
@@ -197,7 +202,7 @@ Plan generate(Rng &rng, const Opts &opts, uint64_t runIndex)
     // swarm: enabled fault kinds for this run
     std::vector<Fault> enabled;
     std::set<int> kinds;
-    for (int k : {F_ABSENT, F_UNREADABLE, F_TRUNCATE, F_READFAIL, F_REPLACE, F_REFBREAK, F_BACKEDGE, F_UNITSCYCLE}) {
+    for (int k : {F_ABSENT, F_UNREADABLE, F_TRUNCATE, F_READFAIL, F_REPLACE, F_REFBREAK, F_BACKEDGE, F_UNITSCYCLE, F_ALL11}) {
         if (rng.chance(1, 2)) {
             kinds.insert(k);
         }
@@ -346,6 +351,23 @@ struct World
             return;
         }
         size_t n = pristine.files.size();
+        if (f.kind == F_ALL11) {
+            for (size_t i = 1; i < n; ++i) {
+                FileSpec spec = specOf(i);
+                bool noisy = f.a % 3 == 2 || (f.a % 3 == 1 && i % 2 == 0);
+                spec.noise = noisy;
+                FileVersion v = makeVersion(spec);
+                v.load = noisy ? Load::NOISY11 : Load::CELLML11;
+                v.text = render11(spec);
+                v.spec.noise = false;
+                v.tag = noisy ? "replaced-noisy11" : "replaced-cellml11";
+                vfs.addVersion(v, pristine.files[i].path);
+                faultOnPath[pristine.files[i].path] = v.tag;
+            }
+            ctx.count("fault_all-cellml11");
+            ctx.ev("FS all imported files in CellML 1.1 syntax, noise pattern " + str(f.a % 3));
+            return;
+        }
         size_t file = size_t(((f.file % long(n)) + long(n)) % long(n));
         if (((f.kind >= F_ABSENT && f.kind <= F_REPLACE) || f.kind == F_UNITSCYCLE) && file == 0 && n > 1) {
             file = 1; // the root file itself is the client's input, not an import
